@@ -22,7 +22,7 @@ CHECKS.update({
  "C04": dict(engine="E1 seq", cat="model_checking", ref="6 C04",
    technique="exhaustive mixed exception/result outcome sequences x deviation-bounded stop reasons on 8 call-style entry points; object-identity oracle",
    text="call() through Retry, Policy, RetryPolicy, context managers and async twins for every outcome sequence mixing exception and result failures and every stop reason; the returned object must be the successful attempt's own object, the raised exception the last attempt's own object with a traceback ending at its raise site, and RetryExhaustedError fields must describe the final attempt.",
-   note="aborted and cancellation-type endings judged by C13; result classifier also in one-shot mode; same exception object re-raised; None results; awaitable objects as successful values; falsy exception objects; unobserved runs (no hooks at all); attribute-configured wrappers; attempt_timeout_s modelled"),
+   note="aborted and cancellation-type endings judged by C13; result classifier also in one-shot mode; same exception object re-raised; None results; awaitable objects as successful values; falsy exception objects; unobserved runs (no hooks at all); attribute-configured wrappers; attempt_timeout_s modelled through the owned executor / virtual loop and, in surface-late-attempt, on the library's real threads (an overrunning attempt really blocks and finishes late at an enumerated release point; event-sequenced, DESIGN 11.8); exception instances as values; one-member exception groups"),
  "C05": dict(engine="E1 seq", cat="model_checking", ref="6 C05",
    technique="exhaustive enumeration of strategy tables, class sequences and strategy answers (NaN, inf, negative, beyond remaining) on the real loop; exact expected delay on a dyadic time lattice",
    text="For each strategy table (default / per-class / both, context or legacy signature) and every class sequence and strategy answer, the monitor checks that exactly the designated strategy is called once per granted retry with the true attempt number, the classifier's own Classification object, the previously applied delay, the remaining time and the cause, and that the sanitised, capped delay is what events, handler, before_sleep, sleeper and next_sleep_s carry.",
@@ -30,7 +30,7 @@ CHECKS.update({
  "C11": dict(engine="E1 seq", cat="model_checking", ref="6 C11",
    technique="exhaustive outcome sequences x deviation-bounded stop reasons x single callback faults on 8 execute-style entry points; outcome-field oracle derived from the trace",
    text="execute() through Retry, Policy (with and without retry), RetryPolicy and async twins: ok/value/stop_reason/attempts/last_class/cause/last_exception/last_result/next_sleep_s must describe the final attempt; only cancellation-type exceptions, nested RetryExhaustedError and the caller's strategy/classifier/sleeper errors may propagate.",
-   note="abort between a failure and its processing is a documented don't-care; stop_reason unchecked without retry component; attempt_timeout_s modelled incl. a hung attempt keeping the single worker busy"),
+   note="abort between a failure and its processing is a documented don't-care; stop_reason unchecked without retry component; attempt_timeout_s modelled incl. a hung attempt keeping the single worker busy, and on the library's real threads with late completion of the timed-out attempt (outcome-late-attempt, DESIGN 11.8); awaitable values"),
 
  "C08": dict(engine="E1 seq + E3 coro", cat="fault_enumeration", ref="6 C08",
    technique="exhaustive single-fault (thorough: double-fault) injection at every callback invocation, every operation ending and every coroutine suspension point of real policy calls; spy breaker + functional probe oracle",
